@@ -228,14 +228,14 @@ class Scenario:
         return sc
 
 
-def gen_scenario(rng, max_reqs=3, max_pairs=3, small=False, malformed=False):
+def gen_scenario(rng, max_reqs=3, max_pairs=3, small=False, malformed=False, mixed_roles=False):
     """Well-formed scenarios (malformed=False) never make the executor raise: subroutines of one
     application own disjoint virtual qubit ids, a request's qubits are freed before a later request of the
     same subroutine reuses them, response types match the request type, result arrays are long enough."""
     sc = Scenario()
     sc.malformed = malformed
     napps = 1 if small else rng.choice([1, 1, 2])
-    nreq = rng.randint(1, max_reqs)
+    nreq = rng.randint(2 if mixed_roles else 1, max(2, max_reqs) if mixed_roles else max_reqs)
     nsubs = 1 if small else rng.choice([1, 1, 2, 2, 3])
     nsubs = min(nsubs, nreq)
     sub_app = [rng.randrange(napps) for _ in range(nsubs)]
@@ -254,13 +254,17 @@ def gen_scenario(rng, max_reqs=3, max_pairs=3, small=False, malformed=False):
         ids = list(range(sc.apps[app]))
         own.append(ids if malformed and rng.random() < 0.5 else ids[j::k])
     # few keys so that queues get longer than one
-    keys = [(rng.choice([1, 2]), rng.choice([0, 1])) for _ in range(rng.choice([1, 1, 2]))]
+    keys = [(rng.choice([1, 2]), rng.choice([0, 1])) for _ in range(1 if mixed_roles else rng.choice([1, 1, 2]))]
+    first_role = rng.choice(["create", "recv"])
     uid = 0
     keytype = {}
     for i in range(nreq):
         si = i if i < nsubs else rng.randrange(nsubs)
         sp = sc.subs[si]
         role = rng.choice(["create", "recv"])
+        if mixed_roles and i < 2:
+            # create and receive roles on ONE socket
+            role = first_role if i == 0 else ("recv" if first_role == "create" else "create")
         ty = rng.choice(["K", "M"])
         remote, purpose = rng.choice(keys)
         if not (malformed and rng.random() < 0.5):
@@ -360,7 +364,7 @@ def _final_wait(sp, req, rng, free=None):
 # ------------------------------------------------------------------ schedules
 
 
-def random_schedule(sc, rng):
+def random_schedule(sc, rng, early=0):
     """tokens: ("s", sub index) / ("d", response index) / ("p",). Subroutines of one application are
     switched only while the running one sits in a wait (or has ended / not started)."""
     nsteps = {i: len(sp.lines) + 1 for i, sp in enumerate(sc.subs)}    # +1: the start step
@@ -370,6 +374,9 @@ def random_schedule(sc, rng):
     toks = []
     budget = sum(nsteps.values()) * 2 + 10
     pending_d = list(order)
+    # the remote side is ahead: some responses arrive before any instruction ran
+    for _ in range(min(early, len(pending_d))):
+        toks.append(("d", pending_d.pop(0)))
     for _ in range(budget):
         r = rng.random()
         if pending_d and r < 0.22:
@@ -468,6 +475,53 @@ class Oracle:
         for app, um in ex._qubit_unit_modules.items():
             snap["units"][app] = list(um)
         return snap
+
+    def quiescent(self, ex, resp_by_uid):
+        per_key_pending = {}
+        for r in ex._pending_epr_responses:
+            spec = resp_by_uid[r.create_id]
+            key = spec.key()
+            per_key_pending.setdefault(key, []).append(spec)
+            d = ex._epr_create_requests if key[2] else ex._epr_recv_requests
+            lst = d.get((key[0], key[1]), [])
+            if not lst:
+                continue
+            head = lst[0]
+            if spec.ty == "M":
+                self.bad("(quiescence) a measure response stays pending although its queue has an outstanding "
+                         "request", key=key, uid=spec.uid)
+                continue
+            try:
+                app = ex._get_app_id(head.subroutine_id)
+                k = head.tot_pairs - head.pairs_left
+                v = ex._app_arrays[app]._arrays[head.q_array_address][k]
+                um = ex._qubit_unit_modules[app]
+                free = 0 <= v < len(um) and um[v] is None
+            except Exception:
+                continue
+            if free:
+                self.bad("(quiescence) a keep response stays pending although the head request's virtual qubit "
+                         "is free", key=key, uid=spec.uid, virtual=v)
+        # a request whose queue received all its responses is retired: when nothing of a queue is pending,
+        # the number of delivered responses decides which requests (in issue order) must be complete
+        ndel = {}
+        for u in self.delivered:
+            ndel[resp_by_uid[u].key()] = ndel.get(resp_by_uid[u].key(), 0) + 1
+        for key, order in self.req_order.items():
+            if per_key_pending.get(key):
+                continue
+            have = ndel.get(key, 0)
+            for oid in order:
+                obj = self.req_objs[oid]
+                if obj.tot_pairs <= 0:
+                    break
+                if have >= obj.tot_pairs:
+                    have -= obj.tot_pairs
+                    if obj.pairs_left != 0:
+                        self.bad("(iv) a request whose queue received all its responses is not retired",
+                                 key=key, tot=obj.tot_pairs, left=obj.pairs_left)
+                else:
+                    break
 
     def bad(self, what, **kw):
         self.violations.append(dict(what=what, **kw))
@@ -572,6 +626,11 @@ class Oracle:
                             self.bad("(v) keep response consumed while its virtual qubit was allocated",
                                      key=key, v=v)
                 self.req_count[oid] += n
+        # quiescence (liveness of the matching): after a delivery or a poll no HANDLEABLE response is left
+        # pending — a pending response either has no outstanding request for its (node, purpose, role), or
+        # is a keep response whose virtual qubit is still allocated
+        if tok[0] in ("d", "p"):
+            self.quiescent(ex, resp_by_uid)
         # (v) no unit-module entry is overwritten
         for app, um in now["units"].items():
             for v, (a, b) in enumerate(zip(before["units"].get(app, um), um)):
